@@ -185,6 +185,15 @@ def run(ctx):
     r7_comparator_class(ctx, ctx.repo)
     r8_lookup(ctx, ctx.repo)
     run_sorting(ctx)
+    # the front numbers are ranks under Pareto dominance only if the comparator the sorting calls IS Pareto dominance:
+    # the comparator rules of C01 are discharged for it here as well
+    ctx.rule("R9", "the ranking comparator satisfies the comparator rules of C01 (Pareto dominance with the feasibility cascade)")
+    from . import c01
+    from .c18 import SubCtx
+    from ..loader import Repo
+    light = Repo(ctx.repo.root, comp=False)
+    if light.has_cls("ParetoDominance"):
+        c01.analyse(SubCtx(ctx, "R9", prefix="ranking comparator ParetoDominance: "), light, "ParetoDominance", False)
 
 
 def run_sorting(ctx):
